@@ -1,6 +1,7 @@
 """C14 -- exposed metadata and parent references equal what the file stores.   Shape A per structure."""
 from __future__ import annotations
 
+import io
 import itertools
 import os
 import struct
@@ -29,13 +30,13 @@ ASSUMPTIONS = [
 ]
 ALPHABET = "stored value x length x count x encoding x sequence pair"
 BOUND = {"quick": "products as in the rule", "thorough": "adds 4-entry locators in every order and 3-snapshot tables in full product"}
-EXPECT_OUTCOMES = ["qcow2-ext", "qcow2-backing", "qcow2-snap", "qcow2-header", "vhdx-seq", "vhdx-meta", "vhdx-locator",
+EXPECT_OUTCOMES = ["qcow2-ext", "qcow2-bigext", "qcow2-backing", "qcow2-snap", "qcow2-header", "vhdx-seq", "vhdx-meta", "vhdx-locator",
                    "vmdk-desc", "vmdk-embedded", "vhd", "vdi", "hds", "prl"]
 
 
 def shards(tier):
     out = []
-    for kind in ("qcow2-ext", "qcow2-backing", "qcow2-header", "vhdx-seq", "vhdx-meta", "vmdk-desc", "vmdk-embedded", "vhd",
+    for kind in ("qcow2-ext", "qcow2-bigext", "qcow2-backing", "qcow2-header", "vhdx-seq", "vhdx-meta", "vmdk-desc", "vmdk-embedded", "vhd",
                  "vdi", "hds", "prl"):
         out.append({"kind": kind, "tier": tier})
     for i in range(8):
@@ -98,6 +99,37 @@ def _gen_qcow2_ext(tier):
                         if not end and backing is None and n:
                             continue  # without END and without a backing name the area runs to the end of the cluster
                         yield {"exts": [[k, l] for k, l in zip(ks, ls)], "end": end, "backing": backing}
+
+
+def _gen_qcow2_bigext(tier):
+    for cb in (17, 18, 21):
+        for ln in (65527, 65528, 65529, 65535, 65536, 65537, 100001):
+            if ln + 300 < (1 << cb):
+                for kind in ("unk", "feat"):
+                    yield {"cb": cb, "len": ln, "big": kind}
+
+
+def _case_qcow2_bigext(case, ctx):
+    """One very large header extension followed by further extensions and the backing file name."""
+    from dissect.hypervisor.disk.qcow2 import QCow2
+
+    from mc.builders import qcow2 as B
+
+    big = bytes((i * 13 + 5) & 0xFF for i in range(case["len"]))
+    exts = [(EXT_KINDS[case["big"]], big), (EXT_KINDS["fmt"], b"qcow2"), (EXT_KINDS["data"], b"data-file.raw")]
+    img, _ = B.build(["N"], [0], case["cb"], 3, extensions=exts, backing_name="base-after-big-ext.img")
+    q = QCow2(img.sparse(log=False), backing_file=io.BytesIO(b""))
+    ctx.nontrivial += 1
+    d = []
+    _cmp(ctx, d, "backing_format", q.backing_format, "qcow2", ci=True)
+    _cmp(ctx, d, "image_data_file", q.image_data_file, "data-file.raw")
+    _cmp(ctx, d, "auto_backing_file", q.auto_backing_file, "base-after-big-ext.img")
+    if case["big"] == "feat":
+        _cmp(ctx, d, "feature_table", q.feature_table, big)
+    else:
+        _cmp(ctx, d, "unknown_extensions", [(e.magic, e.len, data) for e, data in q.unknown_extensions],
+             [(EXT_KINDS["unk"], len(big), big)])
+    return d
 
 
 def _ext_payload(kind, ln):
@@ -402,7 +434,19 @@ def _case_vmdk_desc(case, ctx):
                  sp.format(k="createType", v="monolithicSparse"), "", "# Extent description", 'RW 16 SPARSE "d.vmdk"', "",
                  "# The Disk Data Base", "#DDB", "", sp.format(k="ddb.adapterType", v="lsilogic"), sp.format(k="ddb.custom", v=v),
                  sp.format(k="parentCID", v="ffffffff"), ""]
-        for text in ("\n".join(lines), "\r\n".join(lines)):
+        for text in ("\n".join(lines), "\r\n".join(lines), "render"):
+            if text == "render":
+                # rendering the descriptor (str / repr / format) is an observation: it must not change what is exposed
+                desc = DiskDescriptor.parse("\n".join(lines))
+                before = (dict(desc.attr), dict(desc.ddb), [str(e) for e in desc.extents])
+                r1, r2 = str(desc), f"{desc}"
+                repr(desc)
+                _cmp(ctx, d, "str() repeatable", r1, r2)
+                _cmp(ctx, d, "attr/ddb/extents after str()", (dict(desc.attr), dict(desc.ddb), [str(e) for e in desc.extents]), before)
+                _cmp(ctx, d, "attr[version] after str()", desc.attr.get("version"), "1")
+                again = DiskDescriptor.parse(r1)
+                _cmp(ctx, d, "parse(str(d)).attr", dict(again.attr), before[0])
+                continue
             desc = DiskDescriptor.parse(text)
             _cmp(ctx, d, "attr[parentFileNameHint]", desc.attr.get("parentFileNameHint"), v)
             _cmp(ctx, d, "attr[CID]", desc.attr.get("CID"), "fffffffe")
